@@ -81,13 +81,12 @@ Proof. exact (conj kauri_cross_spec (conj douglas_mask_spec data_ok_spec)). Qed.
    a concrete entry with its boundary, and a concrete completed partition *)
 Example C16_nonvacuous :
   Nat.leb 200 n_agree = true /\ Nat.leb n_agree n_entries = true /\
-  In ("Kauri", "min_samples_split", Some [Interval TIntegral (Some (Fin (Qmake 2 1))) None CLeft])
-     (flat_map (fun ep => map (fun pe => (fst ep, fst pe, snd pe)) (snd ep)) (estimators ++ functions)) /\
+  lookup_param (estimators ++ functions) "Kauri" "min_samples_split" = Some (Some [Interval TIntegral (Some (Fin (Qmake 2 1))) None CLeft]) /\
   effective_sat classes (Some [Interval TIntegral (Some (Fin (Qmake 2 1))) None CLeft]) (VInt 1) = false /\
   in_doc_domain classes "Kauri" "min_samples_split" (VInt 2) = true /\
   check_groups [[3; 1]%Z; [0]%Z] 5 = Some [[3; 1]%Z; [0]%Z; [2]%Z; [4]%Z] /\
   check_groups [[0; 1]%Z; [1]%Z] 3 = None.
-Proof. vm_compute. repeat split; try reflexivity. repeat (try (left; reflexivity); right). Qed.
+Proof. vm_compute. repeat split; reflexivity. Qed.
 
 Print Assumptions C16_accepts_iff_documented.
 Print Assumptions C16_known_disagreements_refuted.
